@@ -51,6 +51,7 @@ type protoRec struct {
 	SK       string   `json:"sk"`
 	Redacts  string   `json:"redacts"`
 	Num      string   `json:"num"`
+	Lim      string   `json:"lim"`
 	Con      classMap `json:"con"`
 	TpiObj   bool     `json:"tpiobj"`
 	Tpi      classMap `json:"tpi"`
@@ -431,6 +432,8 @@ func listOf(ver, tok string) []string {
 	switch tok {
 	case "p0", "a0", "pn", "an":
 		return []string{}
+	case "acl", "acm", "acx":
+		return nil // cite the room's create event: filled in by protoOf once the room is known
 	case "p1":
 		return []string{idOf("prev1", ver)}
 	case "p2":
@@ -484,7 +487,7 @@ func protoOf(ver string, p *protoRec, seed int64) built {
 		panic("harness: unknown depth token " + p.Depth)
 	}
 	switch p.SK {
-	case "none":
+	case "none", "long": // long: set below from the limit token
 	case "empty":
 		s := ""
 		pe.StateKey = &s
@@ -535,6 +538,46 @@ func protoOf(ver string, p *protoRec, seed int64) built {
 		out.now = time.UnixMilli(tsBase + 1)
 	default:
 		panic("harness: unknown ts token " + p.TS)
+	}
+	if p.Auth == "acl" || p.Auth == "acm" || p.Auth == "acx" {
+		if out.room == nil {
+			panic("harness: an auth list citing the create event needs a room")
+		}
+		create := out.room.create.EventID()
+		switch p.Auth {
+		case "acl":
+			pe.AuthEvents = []string{idOf("auth1", ver), create}
+		case "acm":
+			pe.AuthEvents = []string{idOf("auth1", ver), create, idOf("auth2", ver)}
+		case "acx":
+			pe.AuthEvents = []string{create, idOf("auth1", ver), create}
+		}
+	}
+	// one field stretched to the limit (family len)
+	long := func(prefix, suffix string, class string) string {
+		switch class {
+		case "b255":
+			return prefix + strings.Repeat("x", 255-len(prefix)-len(suffix)) + suffix
+		case "b256":
+			return prefix + strings.Repeat("x", 256-len(prefix)-len(suffix)) + suffix
+		case "cp255": // 255 code points, two bytes each where not ASCII
+			return prefix + strings.Repeat("é", 255-len(prefix)-len(suffix)) + suffix
+		}
+		panic("harness: unknown length class " + class)
+	}
+	if p.Lim != "" && p.Lim != "none" {
+		parts := strings.SplitN(p.Lim, "-", 2)
+		switch parts[0] {
+		case "sk":
+			s := long("", "", parts[1])
+			pe.StateKey = &s
+		case "type":
+			pe.Type = long("org.example.", "", parts[1])
+		case "sender":
+			pe.SenderID = long("@", ":"+hs1, parts[1])
+		default:
+			panic("harness: unknown limit token " + p.Lim)
+		}
 	}
 	out.signer = signerFor(ver, p.Origin, p.SigKey)
 	out.pe = pe
